@@ -7,7 +7,7 @@ EXPLANATION = ("Panic-site census over everything reachable from the public pars
                "source: every MIR Assert and panicking API call (index, slice range, copy_from_slice, unwrap/expect) must be discharged by a dominating "
                "length fact (data.len() != 34 -> return), a fixed-size type (GenericArray<u8, U64>) or equal constant lengths, or be listed as reviewed. "
                "Removing or weakening the length test re-opens the sites. (R18.2) parse_openssl_25519_pubkeys_pem_many pushes the key of every PEM block, once, in "
-               "iteration order, and never removes or reorders. (R18.3) whatever pem::parse rejects goes to the DER parser unmodified; (R18.5) in the key-list parser a PEM block with another label than PUBLIC KEY ends the call with an error (no path from the mismatch edge back to the next block / to an Ok item); (R18.4) a key structure whose algorithm identifier is neither ED_25519_OID nor X_25519_OID is refused: with the equal-edges of the two comparisons cut, no Ok result is reachable in the entry point or in a parser it runs. Round-trip of generated keys and Edwards->Montgomery conversion are numeric / runtime facts and not decided.")
+               "iteration order, and never removes or reorders. (R18.3) whatever pem::parse rejects goes to the DER parser unmodified; (R18.5) in the key-list parser a PEM block with another label than PUBLIC KEY ends the call with an error (no path from the mismatch edge back to the next block / to an Ok item); (R18.6) each DER structure parser (closure over parse_der_* primitives) returns Ok only on the Continue edge of `eof(rest)?`: extra elements inside a SEQUENCE are refused; (R18.4) a key structure whose algorithm identifier is neither ED_25519_OID nor X_25519_OID is refused: with the equal-edges of the two comparisons cut, no Ok result is reachable in the entry point or in a parser it runs. Round-trip of generated keys and Edwards->Montgomery conversion are numeric / runtime facts and not decided.")
 TRUSTED = ['rustc MIR', 'der-parser, nom, pem, curve25519-dalek, sha2 do not panic on arbitrary bytes (dependencies are not analysed)']
 ASSUMPTIONS = ['overflow checks on']
 
@@ -164,10 +164,50 @@ def r18_4(prog, rep):
                '(%s)' % (', '.join('%s: Ok reachable without a match' % k for k, v in verdicts) or 'no function compares the OID with both constants'), E.loc())
 
 
+def r18_6(prog, rep, RULE='R18.6'):
+    """"on any other input the parsers return an error": a key structure is the documented SEQUENCEs and nothing more. der-parser's container combinators
+    hand the closure the content of the object and *drop* whatever the closure leaves unparsed, so each structure parser of this crate (a closure that
+    calls the parse_der_* primitives and returns an IResult) reaches its Ok result only after `eof` was applied to the remaining input and its error
+    propagated. (Whether the object is a SEQUENCE at all is left to the combinator / the tag test and not decided here.)"""
+    cp = prog.crates['curve25519-parser']
+    n = 0
+    for c in cp.bodies:
+        if c.kind != 'Closure':
+            continue
+        prims = [b for b in c.calls() if 'der_parser' in cnorm(b.term) and b.term.cmethod.startswith(('parse_der_', 'parse_ber_'))]
+        if not prims or 'Result<' not in c.lty(0):
+            continue
+        n += 1
+        rep.fn(c)
+        oks = [(bl.idx, i) for bl in c.blocks if not bl.cleanup for i, st in enumerate(bl.stmts)
+               if st.kind == 'assign' and st.place == (0, ()) and st.rv.r == 'aggregate' and st.rv.j.get('variant') == 'Ok']
+        eofs = [b for b in c.calls() if b.term.cmethod in ('eof', 'all_consuming') and 'nom' in cnorm(b.term)]
+        good = []
+        for e in eofs:
+            # the verdict of eof is propagated: its result goes to `?`
+            if e.term.dest is None:
+                continue
+            br = [b for b in c.calls() if b.term.cmethod == 'branch' and b.term.args and b.term.args[0].place is not None and b.term.args[0].place[0] == e.term.dest[0]]
+            # ... and it looks at what the last primitive left
+            src_ok = e.term.args and e.term.args[0].place is not None and any(pb.idx in origins(c, [e.term.args[0].place[0]]).calls for pb in prims)
+            if br and src_ok:
+                si = switch_info(prog, c, br[0].term.target) if br[0].term.target is not None else None
+                cont = enum_arm_target(si, 'Continue') if si and si['kind'] == 'enum' else None
+                if cont is not None:
+                    good.append((br[0].term.target, cont))
+        bad = [c.loc(bb, i) for (bb, i) in oks if not any(c.edge_dominates(e, bb) for e in good)]
+        ok = bool(oks) and not bad
+        rep.ob(RULE, ok, RULE + '|%s|structure-fully-consumed' % c.nkey, 'Ok only after eof(remaining input) succeeded' if ok else
+               'a DER structure parser returns Ok without having checked that nothing is left in the object (%s): the container combinator drops the unparsed rest, so a '
+               'key file with extra elements inside its SEQUENCE -- a second key, parameters after the OID -- is accepted' % (', '.join(bad) or 'no Ok result found'), c.loc())
+    rep.floor(RULE, n, 4, 'DER structure parsers (closures over parse_der_* primitives) in curve25519-parser')
+
+
 def run(prog, rep, tier):
     scope, taint, seen, table = c08.run_census(prog, rep, 'c18', 'PANIC18')
     r18_4(prog, rep)     # unknown algorithm identifiers are refused
     r18_5(prog, rep)     # foreign PEM blocks in a key list are refused
+    r18_6(prog, rep)     # nothing may be left inside the SEQUENCEs of a key structure
     rep.note('%d panic sites in the key-parser scope' % len(seen))
     # positive control: the parser still has its indexing sites and they are discharged by facts, not by the table
     via_table = [k for k in seen if k in table]
